@@ -8,8 +8,6 @@ CONSTANTS
   MaxDepth = 1
   GasMax = 1073741823
   ChildGasShared = FALSE
-  Answer <- TableAnswer
-INVARIANT Bounds
-INVARIANT GasWithinLimit
+  Answer <- StateAnswer
 POSTCONDITION TraceAccepted
 CHECK_DEADLOCK FALSE
